@@ -47,6 +47,7 @@ type Contract struct {
 	Refines  string
 	NoSafety bool
 	Auto     bool
+	InlineCalls bool // callers inline the body (generic helpers whose effect depends on the dynamic type of an argument)
 	DecoderFrame bool // frame = syntactic mod-set, except decoder state which changes only at the decoder parameters
 	PerReturn bool // check the ensures clauses at every return statement instead of once at the merged exit
 	AutoInv  *Clause // clause used as invariant of every loop (sweep)
@@ -318,6 +319,8 @@ func (p *Prog) loadContractFile(path string) error {
 			cur.PerReturn = true
 		case line == "decoder_frame":
 			cur.DecoderFrame = true
+		case line == "inline_calls":
+			cur.InlineCalls = true
 		case strings.HasPrefix(line, "refines "):
 			cur.Refines = prefix + strings.TrimSpace(line[len("refines "):])
 		case strings.HasPrefix(line, "define "):
